@@ -165,6 +165,183 @@ func explain(s *Sim, q *SeqRunner) (vs []Violation, explained, straddling, lostC
 	return
 }
 
+// bgExplained are the background coroutines whose write transactions are explained as atomic steps too
+// (EnqueueTasks depends on hand-off outcomes and is judged by C08's statement-derived oracle instead).
+var bgExplained = map[string]bool{"TimeoutTasks": true, "TimeoutPromises": true, "TimeoutLocks": true, "SchedulePromises": true}
+
+// explainBg: "no response reflects ... an effect that is later undone". Whatever a background sweep writes
+// must be what the same sweep does when it runs alone, atomically, on the state its write found (at a clock
+// value of its window): a sweep that decides on the rows it read earlier and overwrites what a request has
+// been acknowledged for in between (a claim, a renewed lease, a completion) undoes that request's effect.
+func explainBg(s *Sim, runner func(name string) *BgRunner) (vs []Violation, explained, raced int) {
+	first := map[string]*TxRec{}
+	for _, tx := range s.Txs {
+		if tx.Bg && first[tx.ReqId] == nil {
+			first[tx.ReqId] = tx
+		}
+	}
+	for _, tx := range s.Txs {
+		if tx.Bg && bgExplained[tx.Name] {
+			for _, res := range tx.Results {
+				// a sweep's guarded write that found its row changed since the read (and was refused)
+				if res != nil && ((res.UpdatePromise != nil && res.UpdatePromise.RowsAffected == 0) || (res.UpdateTask != nil && res.UpdateTask.RowsAffected == 0) ||
+					(res.UpdateSchedule != nil && res.UpdateSchedule.RowsAffected == 0)) {
+					raced++
+				}
+			}
+		}
+		if !tx.Bg || !bgExplained[tx.Name] || len(tx.Diff) == 0 {
+			continue
+		}
+		f := first[tx.ReqId]
+		lo, hi := min(f.Dispatch, tx.Dispatch), tx.Tick
+		for _, c := range tx.Diff {
+			// the interesting class: a row this sweep writes was changed by someone else after the sweep's read
+			if b0, ok := f.Pre[c.Table][c.Key]; f != tx && ok && c.Before != nil && core.RowString(b0) != core.RowString(c.Before) {
+				raced++
+				break
+			}
+		}
+		if tx.Name == "SchedulePromises" {
+			// the delete race C10 allows: the cycle read a due occurrence, the schedule was deleted (or re-created)
+			// before the write, the occurrence's promise is still created and the schedule row is left alone
+			adv := false
+			for _, c := range tx.Diff {
+				if c.Table == "schedules" {
+					adv = true
+				}
+			}
+			if !adv {
+				continue
+			}
+		}
+		var ticks []int64
+		seen := map[int64]bool{}
+		add := func(v int64) {
+			if !seen[v] {
+				seen[v] = true
+				ticks = append(ticks, v)
+			}
+		}
+		add(tx.Dispatch)
+		for _, t := range s.Ticks {
+			if t >= lo && t <= hi {
+				add(t)
+			}
+		}
+		blur := func(x string) string {
+			if len(ticks) > 1 {
+				return BlurStamps(x, lo, hi)
+			}
+			return x
+		}
+		q := runner(tx.Name)
+		ok := false
+		var miss string
+		var missChange core.Change
+		iso := isolate(tx)
+		for _, tau := range ticks {
+			seq, done := q.Run(iso, tau)
+			if !done {
+				continue
+			}
+			all := true
+			for _, c := range tx.Diff {
+				sc, has := seq[c.Table+"/"+c.Key]
+				if !has || blur(NormEffect([]core.Change{sc})) != blur(NormEffect([]core.Change{c})) {
+					all = false
+					miss = fmt.Sprintf("concurrent: %s\n sequential at clock %d: %s", c, tau-Base, sc)
+					if !has {
+						miss = fmt.Sprintf("concurrent: %s\n sequential at clock %d: row untouched", c, tau-Base)
+					}
+					missChange = c
+					break
+				}
+			}
+			// (the concurrent sweep may do less than the sequential one: a guarded write that finds its row changed
+			// since the read is refused, while the sequential sweep may well serve the row in its new state)
+			if all {
+				ok = true
+				break
+			}
+		}
+		if ok {
+			explained++
+			continue
+		}
+		key := ""
+		if c := missChange; tx.Name == "TimeoutTasks" && c.Table == "tasks" && c.Before != nil && c.Before.I("state") == tClaimed {
+			// the sweep read the task with an expired lease; before its (state, counter)-guarded write the holder's
+			// heartbeat was committed and moved the lease end; the write resets the task all the same
+			if r0 := f.Pre["tasks"][c.Key]; r0 != nil && r0.I("state") == tClaimed && r0.I("counter") == c.Before.I("counter") && r0.S("process_id") == c.Before.S("process_id") &&
+				r0.I("expires_at") != c.Before.I("expires_at") && r0.I("expires_at") <= tx.Tick {
+				key = "C02:sweep-overrides-renewed-lease"
+			}
+		}
+		vs = append(vs, Violation{"C02", "bg-unexplained", key, fmt.Sprintf("background transaction tx#%d of %s [%s] (dispatched %d, committed %d) wrote what the sweep run alone on the state it found does not write at any clock value of its window %v: it overrode an intermediate change.\n %s", tx.Seq, tx.ReqId, tx.CmdString(), tx.Dispatch-Base, tx.Tick-Base, rel(ticks), miss)})
+	}
+	return
+}
+
+// isolate returns the pre-state of a sweep's write transaction in which every OTHER row the sweep would serve is
+// made ineligible (deadline moved far away), so that the sequential sweep does the work of this transaction's row
+// only (a sweep serves its rows independently; what it does for one row may then be compared exactly).
+func isolate(tx *TxRec) core.Snapshot {
+	const far = int64(1) << 60
+	primary := map[string]bool{}
+	for _, c := range tx.Cmds {
+		switch {
+		case c.UpdatePromise != nil:
+			primary[c.UpdatePromise.Id] = true
+		case c.UpdateTask != nil:
+			primary[c.UpdateTask.Id] = true
+		case c.UpdateSchedule != nil:
+			primary[c.UpdateSchedule.Id] = true
+		}
+	}
+	tbl, cols := "", []string{}
+	switch tx.Name {
+	case "TimeoutPromises":
+		tbl, cols = "promises", []string{"timeout"}
+	case "TimeoutTasks":
+		tbl, cols = "tasks", []string{"timeout", "expires_at"}
+	case "SchedulePromises":
+		tbl, cols = "schedules", []string{"next_run_time"}
+	default:
+		return tx.Pre
+	}
+	if len(primary) == 0 {
+		return tx.Pre
+	}
+	out := core.Snapshot{}
+	for t, rows := range tx.Pre {
+		out[t] = rows
+	}
+	out[tbl] = map[string]core.Row{}
+	for k, row := range tx.Pre[tbl] {
+		eligible := !primary[k]
+		switch tbl {
+		case "promises":
+			eligible = eligible && row.I("state") == pPending
+		case "tasks":
+			eligible = eligible && row.I("state")&(tEnqueued|tClaimed) != 0
+		}
+		if !eligible {
+			out[tbl][k] = row
+			continue
+		}
+		n := core.Row{}
+		for c, v := range row {
+			n[c] = v
+		}
+		for _, c := range cols {
+			n[c] = far
+		}
+		out[tbl][k] = n
+	}
+	return out
+}
+
 // TestC02 — API histories are linearizable to the sequential server.
 func TestC02(t *testing.T) {
 	dir := core.Scratch("verif-seq-")
@@ -175,6 +352,13 @@ func TestC02(t *testing.T) {
 			q.Close()
 		}
 	}()
+	var bgRunners = map[string]*BgRunner{}
+	defer func() {
+		for _, q := range bgRunners {
+			q.Close()
+		}
+	}()
+	var nBgExplained, nBgRaced int
 	var nExplained, nStraddle, nLost int
 	c := Campaign{
 		Prop:  "C02",
@@ -187,7 +371,20 @@ func TestC02(t *testing.T) {
 				Gen: g, Steps: [2]int{3, 12}, MaxRq: 4, Dts: []int64{0, 0, 0, 1, 500, 1000, 1000, 2000, -1, -1, -2, -3}, Settle: 2, Prime: 2, ExtraTicks: 2}
 			// one of several workload profiles per case: the whole API, or traffic concentrated on one family of
 			// operations so that its races (lost compare-and-set, decisions straddling a deadline) are frequent
-			switch d.Uni(5, "profile") {
+			switch d.Uni(7, "profile") {
+			case 5, 6:
+				// sweeps against requests: short leases and dispatch windows, a sweep every second, the clock moving in
+				// whole cycles, so that claims, heartbeats and completions land between a sweep's read and its write
+				g.Pids = []string{"p1", "p2"}
+				g.RouteOneIn = 1
+				g.RouteTags = []string{"poll://g/w", "poll://g"}
+				g.ClaimTtls = []int{0, 1000, 1000, 2000}
+				g.TimeoutDeltas = []int64{2000, 4000, 8000, 20000}
+				g.W = map[string]int{"CreatePromise": 2, "CreatePromiseAndTask": 2, "CreateCallback": 1, "CompletePromise": 1, "ClaimTask": 8, "CompleteTask": 3, "HeartbeatTasks": 5, "ReadPromise": 1}
+				c.Cfg.SignalTimeout, c.Cfg.TaskEnqueueDelay = time.Second, time.Second
+				c.Prof.SendFail = 0
+				c.Dts = []int64{1000, 1000, 1000, 2000, 0, -1, -3}
+				c.ExtraTicks, c.Steps = 3, [2]int{6, 16}
 			case 0, 1:
 				g.W = map[string]int{"CreatePromise": 4, "CreatePromiseAndTask": 1, "CompletePromise": 4, "ReadPromise": 2, "SearchPromises": 1, "CreateCallback": 2, "CreateSubscription": 2,
 					"AcquireLock": 2, "ReleaseLock": 1, "HeartbeatLocks": 1, "ClaimTask": 3, "CompleteTask": 2, "HeartbeatTasks": 1, "CreateSchedule": 1, "ReadSchedule": 1, "DeleteSchedule": 1, "SearchSchedules": 1}
@@ -250,11 +447,22 @@ func TestC02(t *testing.T) {
 		nExplained += e
 		nStraddle += st
 		nLost = lost
-		return vs
+		bvs, be, br := explainBg(s, func(name string) *BgRunner {
+			bk := k + name
+			if bgRunners[bk] == nil {
+				bgRunners[bk] = NewBgRunner(s.Cfg, name, dir)
+			}
+			return bgRunners[bk]
+		})
+		nBgExplained += be
+		nBgRaced += br
+		return append(vs, bvs...)
 	}
 	c.Finish = func(st *core.Stats) {
 		st.Extra["requests_explained_by_sequential_rerun"] = nExplained
 		st.Extra["requests_straddling_a_clock_advance"] = nStraddle
+		st.Extra["background_write_transactions_explained_by_sequential_rerun"] = nBgExplained
+		st.Extra["background_writes_attempted_on_a_row_changed_since_the_sweeps_read"] = nBgRaced
 	}
 	RunCampaign(t, c)
 }
